@@ -2,7 +2,7 @@
    interrupted synchronisation leaves old-or-new; an outage refuses profile changes.
    Model: Model/Storage.v (cmd/keymasterd/storage.go and the handlers' fromCache branches). *)
 From Coq Require Import List NArith ZArith Bool.
-From KM Require Import Model.Storage Proofs.Storage.
+From KM Require Import Model.Storage Proofs.Storage Model.Profile Proofs.Profile.
 Import ListNotations.
 Open Scope Z_scope.
 
@@ -14,6 +14,62 @@ Theorem c15_roundtrip : forall s u b, pmode s = Up ->
   (forall u', u' <> u -> snd (step (fst (step s (Save u b))) (Load u')) = snd (step s (Load u'))).
 Proof. exact roundtrip. Qed.
 Print Assumptions c15_roundtrip.
+
+(* ---- the CONTENT of the profile (Model/Profile.v: userProfile with its three maps, the pending
+   registration data, the bootstrap OTP; gob_roundtrip = what gob.Encode / gob.Decode into LoadUserProfile's
+   destination do to such a value according to encoding/gob's rules for zero values — NOT the identity;
+   canon = the content: map entries by key, nil = empty, a pointer to an empty list = no pointer).
+   The gob library itself is trusted; that it follows these rules is compared on every run for the
+   generated profiles (c15_profile_mismatches). *)
+
+(* what is read back has exactly the content that was saved, for EVERY profile *)
+Theorem c15_profile_roundtrip : forall p, canon (gob_roundtrip p) = canon p.
+Proof. exact profile_roundtrip. Qed.
+Print Assumptions c15_profile_roundtrip.
+
+(* "content" is a normal form *)
+Theorem c15_profile_canon_idempotent : forall p, canon (canon p) = canon p.
+Proof. exact canon_idempotent. Qed.
+Print Assumptions c15_profile_canon_idempotent.
+
+(* on top of the storage model (whose blobs are numbers): for ANY codec enc / dec that carries the
+   content as gob does, a profile saved while the primary is up is loaded back from the primary as
+   gob_roundtrip p — a profile with the content of p *)
+Theorem c15_profile_save_load : forall (enc : profile -> N) (dec : N -> option profile),
+  (forall p, dec (enc p) = Some (gob_roundtrip p)) ->
+  forall s u p, pmode s = Up ->
+  loaded dec (snd (step (fst (step s (Save u (enc p)))) (Load u))) = Some (gob_roundtrip p) /\
+  (exists q, loaded dec (snd (step (fst (step s (Save u (enc p)))) (Load u))) = Some q /\ canon q = canon p).
+Proof. exact profile_save_load. Qed.
+Print Assumptions c15_profile_save_load.
+
+(* the per-pair check of the tie (prediction of the model = observed) is the property's own
+   conclusion on the observation (content saved = content loaded) *)
+Theorem c15_profile_case_is_property : forall c, pcase_ok c = pcase_content_kept c.
+Proof. exact pcase_ok_is_content_kept. Qed.
+Print Assumptions c15_profile_case_is_property.
+
+(* what "exactly the content" does NOT say: the VALUE is not read back identical.  A pointer to an empty
+   pending-secret list comes back as no pointer; a zero-length hash comes back nil; nil U2F / TOTP maps
+   come back empty (and a nil WebAuthn map nil); entries come back in no particular order and an
+   overwritten entry is gone — the canonical form hides exactly these; a pointer to a zero struct does
+   come back as a pointer and stays distinct from no pointer in the canonical form *)
+Theorem c15_profile_identity_refuted :
+  PendingTOTPSecret ptr_to_empty_pending = Some (Some []) /\
+  PendingTOTPSecret (gob_roundtrip ptr_to_empty_pending) = None /\
+  gob_roundtrip ptr_to_empty_pending <> ptr_to_empty_pending /\
+  b_hash (BootstrapOTP (gob_roundtrip zero_length_hash)) = None /\
+  WebauthnData (gob_roundtrip zero_length_hash) = Some [] /\
+  gob_roundtrip zero_length_hash <> zero_length_hash /\
+  U2fAuthData (gob_roundtrip empty_profile) = Some [] /\ WebauthnData (gob_roundtrip empty_profile) = None /\
+  gob_roundtrip empty_profile <> empty_profile /\
+  U2fAuthData (gob_roundtrip unordered_map) = Some [(3, mk_u2f false 2 [] 0 [] None); (7, mk_u2f false 9 [] 0 [] None)] /\
+  RegistrationChallenge (gob_roundtrip ptr_to_zero_challenge) = Some (mk_chal None 0 [] None) /\
+  canon ptr_to_zero_challenge <> canon empty_profile /\
+  forallb (fun p => profile_eqb (canon (gob_roundtrip p)) (canon p))
+          [ptr_to_empty_pending; zero_length_hash; empty_profile; unordered_map; ptr_to_zero_challenge] = true.
+Proof. exact profile_identity_refuted. Qed.
+Print Assumptions c15_profile_identity_refuted.
 
 (* After ANY history, a synchronisation that returns nil — whichever fault index it was run
    with — leaves the cache holding exactly the primary's users (same content) and exactly the
